@@ -661,6 +661,10 @@ class Solver(object):
                     # timestep is determined by the other processors.
                     dt = 1e20
                 dt = self.pm.update_time_steps(dt)
+                if dt >= 1e20:
+                    # No processor has an adaptive timestep constraint:
+                    # keep the fixed timestep as a serial run does.
+                    dt = undamped_dt
             else:
                 if dt is None:
                     dt = undamped_dt
